@@ -23,7 +23,8 @@ type caseC18 struct {
 	Layout model.Layout
 	Env    model.Env
 	Agg    string
-	Flags  int // bit set choosing the optional flags
+	Flags  int  // bit set choosing the optional flags
+	Huge   bool `json:",omitempty"` // a single huge total: --chart is kept although the bar is very long
 }
 
 func genC18(t *rapid.T, _ *evid.Rec) caseC18 {
@@ -33,6 +34,16 @@ func genC18(t *rapid.T, _ *evid.Rec) caseC18 {
 	c.Layout = gen.Layout(t, len(c.Doc.Records))
 	c.Agg = rapid.SampledFrom([]string{"day", "week", "month", "quarter", "year"}).Draw(t, "agg")
 	c.Flags = rapid.IntRange(0, 255).Draw(t, "flags")
+	if rapid.IntRange(0, 39).Draw(t, "hugeChart") == 0 {
+		// one record whose total makes a chart bar of more than a million blocks
+		mins := rapid.IntRange(15_000_060, 24_000_000).Draw(t, "hugeMins")
+		e := model.Entry{Kind: model.KDuration, Dur: model.Duration{Mins: mins, Lit: model.CanonDuration(mins, false, 0)}, Summary: model.Texts("huge")}
+		c.Doc = model.Doc{Records: []model.Record{{Date: model.DateOfDays(c.Env.NowDay, false), Entries: []model.Entry{e}}}}
+		c.Layout = model.Layout{FinalEOL: true}
+		c.Agg = "day"
+		c.Flags = 16 // --chart only
+		c.Huge = true
+	}
 	return c
 }
 
@@ -60,7 +71,7 @@ func checkC18(c caseC18) (Outcome, error) {
 	// --chart output grows with the totals: keep it bounded
 	for _, r := range c.Doc.Records {
 		for _, e := range r.Entries {
-			if m := e.Minutes(); m > 100000 || m < -100000 {
+			if m := e.Minutes(); (m > 100000 || m < -100000) && !c.Huge {
 				c.Flags &^= 16
 			}
 		}
